@@ -656,6 +656,7 @@ def r4(ctx, prog, rep):
     reach, _ = reach_tops(prog)
     sccs = prog.sccs(sorted(reach))
     E = prog.edges()
+    ev = Evaluator(prog)
     n = 0
     for comp in sccs:
         if len(comp) == 1 and comp[0] not in [nm for nm, _ in E.get(comp[0], [])]:
@@ -666,7 +667,10 @@ def r4(ctx, prog, rep):
         name = sorted(set(members))[0]
         bounded = has_depth_bound(prog, comp)
         key = "cycle:%s" % cls
-        if len(set(members)) == 1:
+        rl = sorted({shared.roles(prog, ev).get(m) for m in members} - {None})
+        if rl and not any((cls, m) in CYCLE_ANCHORS for m in members):
+            key += ":" + rl[0]           # named by what the function is used for (survives renaming / helper extraction)
+        elif len(set(members)) == 1:
             key += ":" + name.rsplit("::", 1)[1]
         elif not any((cls, m) in CYCLE_ANCHORS for m in members):
             key += ":" + name            # a cycle other than the recorded ones of its class
